@@ -88,6 +88,14 @@ class BaseElementLocator
 
     constexpr auto data_end(const std::byte*) const noexcept { return last_element_; }
 
+    // Gives the offset table back to `allocator` and leaves an empty locator for the block at `memory_begin`.
+    template <class Allocator>
+    void release(const Allocator& allocator, std::byte* memory_begin) noexcept
+    {
+        element_addresses_.deallocate(allocator);
+        last_element_ = memory_begin;
+    }
+
     void resize(std::size_t new_size, std::byte* memory_begin) noexcept
     {
         if (new_size < element_addresses_.size())
@@ -219,6 +227,12 @@ class BaseAllFixedSizeElementLocator
     constexpr auto data_end(std::byte* memory_begin) const noexcept { return memory_begin + stride_ * element_count_; }
 
     constexpr void resize(std::size_t new_size, const std::byte*) noexcept { element_count_ = new_size; }
+
+    template <class Allocator>
+    constexpr void release(const Allocator&, const std::byte*) noexcept
+    {
+        element_count_ = {};
+    }
 
     void move_elements_forward(std::size_t from, std::size_t to, std::byte* memory_begin) const noexcept
     {
